@@ -292,7 +292,7 @@ def run_seq(case):
 
     async def main():
         loop = __import__("asyncio").get_running_loop()
-        token = CancellationToken()
+        token = None if case.get("noToken") else CancellationToken()
         fire = case.get("fire")
         if fire is not None:
             if fire == 0:
